@@ -287,3 +287,15 @@ func (t *tr) typeSwitch(s *ast.TypeSwitchStmt, cont cont) string {
 	}
 	return "(" + out.String() + ")"
 }
+
+// elseIfOpenErr: `if C { .., err = f() } else if D { .., err = g() } else { .. }; if err != nil {..}` - a branch of an if / else-if
+// chain ends with an open `err = f(..)` whose check follows the whole statement.  The else-if is translated like the block form:
+// the nested if statement together with the statements after the chain (same meaning as inlining the continuation).
+// Reached only where translate.go used to emit UNSUPPORTED_else_if_next_to_an_open_error_assignment.
+func (t *tr) elseIfOpenErr(x *ast.IfStmt, after []ast.Stmt, k cont) string {
+	ei, ok := x.Else.(*ast.IfStmt)
+	if !ok {
+		return t.bad("else-if next to an open error assignment", x)
+	}
+	return t.block(append([]ast.Stmt{ei}, after...), k)
+}
